@@ -56,6 +56,7 @@ pub fn check_cmd(args: &[String]) -> i32 {
         "C07" => c07(&a),
         "C08" => c08(&a),
         "C10" => c10(&a),
+        "C14" => c14(&a),
         "C13" => c13(&a),
         "C15" => c15(&a),
         p => {
@@ -748,4 +749,71 @@ pub fn sched_trace(name: &str) -> i32 {
     }
     println!("end {:?} panics {:?} findings {:?}", t.end, p, o.findings);
     0
+}
+
+fn c14_victims() -> Vec<(&'static str, COp, Vec<Op>)> {
+    // (name, victim, extra prefix making the victim meaningful)
+    vec![
+        ("W24", COp::W { k: 0, ts: 10, size: 24, meta: None }, vec![]),
+        ("W5K", COp::W { k: 0, ts: 10, size: 5 * 1024, meta: None }, vec![]),
+        ("W90K", COp::W { k: 0, ts: 10, size: 90 * 1024, meta: None }, vec![]),
+        ("Dactive", COp::D { k: 0, ts: 10 }, vec![Op::w(0, 2)]),
+        ("Dclosed", COp::D { k: 0, ts: 10 }, vec![Op::w(0, 2), Op::Rot]),
+        ("R", COp::R(0), vec![Op::w(0, 2), Op::Rot]),
+        ("C", COp::C(0), vec![Op::w(0, 2)]),
+        ("RA", COp::RA(0), vec![Op::w(0, 2), Op::Rot, Op::w(0, 3)]),
+        ("TryClose", COp::M(Op::TryClose), vec![Op::w(0, 2)]),
+        ("Rot", COp::M(Op::Rot), vec![Op::w(0, 2)]),
+        ("Fsync", COp::M(Op::Fsync), vec![Op::w(0, 2)]),
+        ("TryRestore", COp::M(Op::TryRestore), vec![Op::w(0, 2), Op::TryClose]),
+        ("FreeExcess", COp::M(Op::FreeExcess), vec![Op::w(0, 2), Op::Rot, Op::d(0, 3)]),
+    ]
+}
+
+fn c14(a: &Args) -> Report {
+    let thorough = a.tier == "thorough";
+    let prefixes: Vec<(&str, Vec<Op>, u64)> = vec![
+        ("fresh", vec![], 1_000_000),
+        ("append", vec![Op::w(1, 1), Op::Rot, Op::w(1, 4), Op::Rst], 1_000_000),
+        ("nearfull", vec![Op::w(1, 1)], 2),
+    ];
+    // 1. uncancelled runs tell how many polls each victim takes
+    let mut bases: Vec<SchedSpec> = Vec::new();
+    for (pname, prefix, max_data) in &prefixes {
+        for mode in [IoMode::Inplace, IoMode::Background] {
+            for (vname, victim, extra) in c14_victims() {
+                if *pname == "nearfull" && !extra.is_empty() && !matches!(victim, COp::W { .. }) && vname != "Dactive" {
+                    continue;
+                }
+                let mut p = prefix.clone();
+                p.extend(extra.iter().cloned());
+                let mut s = SchedSpec::new(&format!("C14/{pname}/{mode:?}/{vname}"), mode, p, vec![vec![victim.clone()]]);
+                s.wcfg.max_data_in_blob = *max_data;
+                s.followup = vec![COp::R(0), COp::w(1, 50), COp::R(1), COp::M(Op::Rot), COp::w(0, 60), COp::R(0)];
+                s.cancel = Some(sched::Cancel { client: 0, op: 0, k: usize::MAX });
+                s.bound = if thorough { 3 } else { 2 };
+                s.max_execs = if thorough { 30_000 } else { 2_500 };
+                bases.push(s);
+            }
+        }
+    }
+    let mut specs: Vec<SchedSpec> = Vec::new();
+    let mut poll_counts = Vec::new();
+    for b in &bases {
+        let (_, _, out) = sched::run_once(b, &[]);
+        let n = out.polls_of_victim;
+        poll_counts.push(json!({"instance": b.name, "polls_uncancelled": n}));
+        for k in 1..n.max(1) {
+            let mut s = b.clone();
+            s.name = format!("{}/k{k}", b.name);
+            s.cancel = Some(sched::Cancel { client: 0, op: 0, k });
+            specs.push(s);
+        }
+    }
+    let results = run_sched_specs(&specs, a.threads);
+    let mut rep = sched_report("C14", a, results, "every victim operation x prefix state x I/O mode x every k (the future is dropped when its k-th poll returns Pending), then bounded-preemption DFS over the placement of the detached I/O jobs and background tasks relative to the follow-up operations; oracle: effect of the victim all-or-nothing in the session and after a restart, everything else linearizable, blobs parse completely", &|_| None);
+    if let serde_json::Value::Object(o) = &mut rep.coverage {
+        o.insert("victims".into(), json!(poll_counts));
+    }
+    rep
 }
